@@ -107,7 +107,7 @@ fn disclosure_api(ctx: &mut Ctx, rng: &mut Rng, rounds: usize) {
                     (Some(a), None) => a.len() == 2 && a[1] == value,
                     _ => false,
                 };
-                let salt_ok = dec.as_ref().and_then(|a| a[0].as_str().map(|x| x.to_string())).and_then(|x| real::b64url_decode(&x)).map_or(false, |b| b.len() == salt_len);
+                let salt_ok = dec.as_ref().and_then(|a| a[0].as_str().map(|x| x.to_string())).and_then(|x| real::b64url_decode(&x)).map_or(false, |b| b.len() >= salt_len);   // the requested number of salt bytes, or more (C13 has the 128-bit floor)
                 let unpadded = s.bytes().all(|b| b.is_ascii_alphanumeric() || b == b'-' || b == b'_');
                 if d.digest() != &expected_digest || d.digest().len() != dlen || !content_ok || !salt_ok || !unpadded {
                     ctx.report.diff("property", "Disclosure::build", "Disclosure::build:not-as-specified", &case,
